@@ -1,2 +1,52 @@
-From Model Require Import Base.
-Example C17_placeholder : True. Proof. exact I. Qed.
+(* C17 - vi delete removes exactly what yank would copy.
+   Property theorems only; proofs are in Proofs/EditorP.v. *)
+From Coq Require Import String.
+From Model Require Import Base Uni Utf8 Notation Inputrc HistFile Editor.
+From Proofs Require Import EditorP.
+Open Scope Z_scope.
+
+(* d and y take the same branch of vi-delete-to / vi-yank-to whenever a selection is
+   active when they run: in visual mode (v<motion>d / v<motion>y) and, in operator-
+   pending mode, when the pending operator runs after its motion or text object (the
+   motion only moved the cursor or set the selection). From ANY such state - any
+   buffer, cursor, selection (pending or explicit, visual or not, line-wise or not),
+   any motion that was the active command - the two commands:
+     - read the same region: what delete cuts is what yank copies (same ring afterwards);
+     - yank leaves the buffer unchanged;
+     - delete leaves the buffer minus exactly one range [b, ep) of it, that range being
+       the text put on the ring. *)
+Theorem C17_delete_yank_agree : forall e ed ey,
+  cmd_vi_delete_sel e = Ok ed -> cmd_vi_yank_sel e = Ok ey ->
+  line ey = line e /\ ring ed = ring ey /\
+  ((line ed = line e) \/ exists b ep, 0 <= b <= ep /\ ep <= llen e /\
+                                      line ed = l_cut (line e) b ep /\
+                                      (sub (line e) b ep <> [] -> ring_top ed = sub (line e) b ep)).
+Proof. exact vi_delete_yank_commands_agree. Qed.
+
+(* Selection.Pos is stable: the region the operators read does not depend on how
+   many times it has been asked for *)
+Theorem C17_region_is_stable : forall e e1 b ep, s_pos e = (e1, b, ep) -> s_pos e1 = (e1, b, ep).
+Proof. exact s_pos_fix. Qed.
+
+(* non-vacuity through the command interpreter: "foo bar baz", ESC, 0, w, then dw vs yw *)
+Definition c17_setup : res ed :=
+  let ty := fold_left (fun r c => match r with Ok e => run_one (zs "self-insert") [c] true (-1) e | x => x end)
+                      [102; 111; 111; 32; 98; 97; 114; 32; 98; 97; 122] (Ok (ed_init true [])) in
+  do e <- ty;
+  do e <- run_one (zs "vi-movement-mode") [27] true (-1) e;
+  do e <- run_one (zs "beginning-of-line") [48] true (-1) e;
+  run_one (zs "vi-forward-word") [119] true (-1) e.
+
+Example C17_example :
+  match c17_setup with
+  | Ok e =>
+    match (do e1 <- run_one (zs "vi-delete-to") [100] true (-1) e; run_one (zs "vi-forward-word") [119] true (-1) e1),
+          (do e1 <- run_one (zs "vi-yank-to") [121] true (-1) e; run_one (zs "vi-forward-word") [119] true (-1) e1) with
+    | Ok ed, Ok ey =>
+      eqlZ (line ed) [102; 111; 111; 32; 98; 97; 122] && eqlZ (ring_top ed) [98; 97; 114; 32]
+      && eqlZ (ring_top ey) [98; 97; 114; 32] && eqlZ (line ey) (line e)
+    | _, _ => false
+    end
+  | _ => false
+  end = true.
+Proof. vm_compute. reflexivity. Qed.
